@@ -1,6 +1,7 @@
 //! Fingerprint program (C15): registers every type of the generated corpus, each in a fresh registry and all
 //! together, and prints the SCALE encoding of the resulting PortableRegistry. Built once per feature set.
 #![allow(unused, non_camel_case_types, non_snake_case, clippy::all)]
+#![recursion_limit = "1024"]
 mod proto {
     pub fn hex(b: &[u8]) -> String {
         let mut s = String::with_capacity(1 + b.len() * 2);
